@@ -7,6 +7,7 @@ import (
 	"strings"
 
 	"verifsim/kernel"
+	"verifsim/ref/crypto"
 	"verifsim/scn"
 )
 
@@ -265,6 +266,44 @@ func genDLHistory(r *kernel.Rand, maxOps int) map[string]interface{} {
 	return h
 }
 
+// dlTypeOf is the message type octet of each downlink kind (the third octet of the plain message).
+var dlTypeOf = map[string]byte{"authreq": 0x56, "smc": 0x5d, "regaccept": 0x42, "cuc": 0x54, "svcaccept": 0x4e, "deregaccept": 0x46, "dlnas": 0x68,
+	"authresult": 0x5a, "authreject": 0x58, "idreq": 0x5b, "svcreject": 0x4d, "regreject": 0x44}
+
+// lookalikeHistory searches a ciphering key under which the first ciphered message of the history
+// comes out with a ciphertext that itself begins like a plain 5GMM message (7e 00 <message type>):
+// a receiver that guesses "this was not ciphered after all" from the octets is wrong exactly there.
+func lookalikeHistory(r *kernel.Rand, maxOps int) map[string]interface{} {
+	h := genDLHistory(r, maxOps)
+	nea := 2
+	h["nea"], h["nia"] = nea, 1+r.Intn(2)
+	ov, sq := r.Intn(65535), r.Intn(250)
+	h["start_overflow"], h["start_sqn"] = ov, sq
+	count := uint32(ov)<<8 | uint32(sq)
+	kind := dlKinds[r.Intn(len(dlKinds))]
+	t := dlTypeOf[kind]
+	key := make([]byte, 16)
+	for tries := 0; tries < 6000000; tries++ {
+		x := r.Uint64()
+		y := r.Uint64()
+		for i := 0; i < 8; i++ {
+			key[i], key[8+i] = byte(x>>(8*uint(i))), byte(y>>(8*uint(i)))
+		}
+		ks, _ := crypto.Cipher(byte(nea), key, count, 1, 1, []byte{0, 0, 0})
+		if ks[0] == 0 && ks[1] == 0 {
+			if ct := t ^ ks[2]; ct >= 65 && ct <= 104 {
+				h["kenc"] = hex.EncodeToString(key)
+				h["lookalike"] = true
+				break
+			}
+		}
+	}
+	first := map[string]interface{}{"op": "send", "sht": 2, "msg": map[string]interface{}{"kind": kind, "len": r.Intn(20), "seed": r.Intn(1 << 30)}, "via": "ngap"}
+	ops, _ := h["ops"].([]interface{})
+	h["ops"] = append([]interface{}{first}, ops...)
+	return h
+}
+
 func checkC10(c *Ctx) {
 	nHist, maxOps, per := 30000, 40, 150
 	if c.Tier == "thorough" {
@@ -287,8 +326,28 @@ func checkC10(c *Ctx) {
 		}
 		jobs = append(jobs, Job{S: lsScenario(root.Uint64(), "dl", hs), Rig: "ls", Judge: "ls", Tag: "c10-history"})
 	}
+	// histories whose first ciphertext looks like a plain message (searched keys)
+	nLook := 6
+	if c.Tier == "thorough" {
+		nLook = 120
+	}
+	var lh []interface{}
+	rl := root.Sub("lookalike")
+	for k := 0; k < nLook; k++ {
+		h := lookalikeHistory(rl, 12)
+		if ok, _ := h["lookalike"].(bool); ok {
+			c.Probes["ciphertext-that-looks-like-a-plain-header"]++
+		}
+		sigs[histSig(h)] = true
+		lh = append(lh, h)
+	}
+	jobs = append(jobs, Job{S: lsScenario(root.Uint64(), "dl", lh), Rig: "ls", Judge: "ls", Tag: "c10-lookalike"})
 	c.Batch(jobs, func(j Job, r *Run, fs []Finding) {
-		c.Evals += per - 1
+		if j.Tag == "c10-lookalike" {
+			c.Evals += nLook - 1
+		} else {
+			c.Evals += per - 1
+		}
 		lsProbes(c, r, "drops", "wraps256", "delivered", "excluded", "corrupted")
 		for _, e := range r.Events {
 			if e.Ev == "hist" {
@@ -470,7 +529,7 @@ func checkC14(c *Ctx) {
 	if c.Tier == "thorough" {
 		nConv, multi = 120, 2000
 	}
-	c.Rule = "corpus = every uplink and downlink NGAP message of simulated conversations (all on-path types, swarm-varied) plus the encodings of the library's own builders; for each corpus message the single-fault space is enumerated completely: every strict prefix, every single-bit flip, every octet set to 00/7F/80/FF/C1/C4, every octet pair set to FFFF/7FFF/8000/BFFF/C4C4, and runs of C4 (8, 40), FF (8), 00 (8) at every offset (adversarial lengths, counts and fragmented length determinants); thorough adds seeded multi-octet faults, splices and random strings. evaluation = one ngap.Decoder call; oracle: returns (PDU | error), no panic, no fatal error, <= 16 MiB allocated and <= 5 s per call. distinct = distinct (corpus message, mutation); non-trivial = all (the genuine message itself is decoded too)"
+	c.Rule = "corpus = every uplink and downlink NGAP message of simulated conversations (all on-path types, swarm-varied) plus the encodings of the library's own builders; for each corpus message the single-fault space is enumerated completely: every strict prefix, every single-bit flip, every octet set to 00/7F/80/FF/C1/C4, every octet pair set to FFFF/7FFF/8000/BFFF/C4C4, runs of C4 (8, 40), FF (8), 00 (8) at every offset (adversarial lengths, counts and fragmented length determinants), and structure-consistent faults: the value of every top-level IE replaced by nothing, by every single octet and by 60 two-/three-octet values while the IE's and the message's length determinants are kept right; thorough adds seeded multi-octet faults, splices and random strings. evaluation = one ngap.Decoder call; oracle: returns (PDU | error), no panic, no fatal error, <= 16 MiB allocated and <= 5 s per call. distinct = distinct (corpus message, mutation); non-trivial = all (the genuine message itself is decoded too)"
 	c.Assume = []string{"thresholds (16 MiB, 5 s per call for inputs <= 4 KiB) are far above honest behaviour so that they never trip on correct code",
 		"the corpus need not be independent of the library: the builders' own encodings are used for breadth"}
 	c.Components = map[string][]string{"real": {"free5gclib/ngap.Decoder", "free5gclib/aper", "free5gclib/ngap/ngapType"}, "stub": {"none: message-corruption faults are applied to the byte strings handed to the decoder"}}
@@ -554,7 +613,7 @@ func checkC14(c *Ctx) {
 	c.Extra["distinct_note"] = "every (corpus message, mutation) pair is distinct by construction; distinct_nontrivial counts them"
 	c.Extra["expected_decodes"] = total
 	c.Exhaustive = true
-	c.Extra["exhaustive_part"] = "every prefix, bit flip, octet set, octet-pair set and run (see rule) at every offset of every corpus message"
+	c.Extra["exhaustive_part"] = "every prefix, bit flip, octet set, octet-pair set and run (see rule) at every offset, and every (IE, replacement value) pair of the structure-consistent class, of every corpus message"
 	c.distinctOverride = decodes
 	// a replay for a decoder violation is the single input
 	for i := range c.Violations {
